@@ -104,4 +104,5 @@ def check(tier, seed):
         'rule': 'for each sampled valid tuple, every single-bit position of the signature, public key, message and context (exhaustive per tuple; tuple count is the sample); '
                 'non-trivial = distinct (tuple, position) whose mutated tuple was rejected by the crate',
         'tie': 'property oracle on the crate (no model needed) + correspondence on a sample of the flips'},
-        ['flips inside c-tilde and z are rejected only up to SHAKE256 collision resistance and the size of A*delta; those parts are exploration, not proof (C05_full is stated, C05 partial theorems proved)'])
+        ['Lean (Props/C05b): a second accepted tuple differing in the hint section, the (context, message, mode) interpretation or the public-key string is an explicit collision of the hash oracle; '
+         'flips inside c-tilde and z are rejected only up to SHAKE256 collision resistance and the size of A*delta; those parts are exploration, not proof'])
